@@ -38,7 +38,7 @@ ANCHORS = ['Binary8Format.float_to_int8', 'MXFPFormat.float_to_int',
            'Bits._gete2m3mxfp', 'Bits._gete2m1mxfp', 'Bits._gete8m0mxfp', 'Bits._getmxint',
            'Bits._getbfloatbe', 'Bits._getbfloatle',
            'scaled_get_fn.<locals>.wrapper', 'scaled_set_fn.<locals>.wrapper', 'scaled_read_fn.<locals>.wrapper']
-ENC_ROUTES = ['kw', 'prop', 'token', 'build', 'build2', 'pack', 'packkw', 'array', 'array-set', 'array-append']
+ENC_ROUTES = ['kw', 'prop', 'token', 'build', 'build2', 'pack', 'packkw', 'array', 'array-set', 'array-append', 'kw-after-mutated']
 DEC_ROUTES = ['prop', 'read', 'readlist', 'unpack', 'parse', 'array', 'array-item']
 S_ENC_ROUTES = ['build', 'array', 'array-set', 'array-append']
 S_DEC_ROUTES = ['parse', 'read', 'readlist', 'unpack', 'array', 'array-item']
@@ -99,6 +99,14 @@ def lib_encode(route, clsname, fmt, nm, x):
             mcls = cls if clsname in util.MUTABLE else CLASSES['BitArray']
             b = mcls() if clsname == 'Bits' else mcls(uint=(1 << nb) - 2, length=nb)
             setattr(b, nm, x)
+        elif route == 'kw-after-mutated':
+            # the value assigned to a mutable object, that object changed in place, then the value encoded afresh
+            t = CLASSES['BitArray' if clsname != 'BitStream' else 'BitStream']()
+            setattr(t, nm, x)
+            if len(t):
+                t.invert()
+            t.append('0b1')
+            b = cls(**{nm: x})
         elif route == 'token':
             clear_token_cache()
             b = cls(f'{nm}={x!r}')
@@ -582,7 +590,9 @@ def random_double(rng):
 
 
 SCALES = ([['float', hx(2.0 ** k)] for k in range(-8, 0)] + [['int', 2 ** k] for k in range(0, 9)] +
-          [['float', hx(2.0 ** k)] for k in (1, 3, 8)] + [['int', 3], ['int', -2], ['float', hx(3.0)]])
+          [['float', hx(2.0 ** k)] for k in (1, 3, 8)] + [['int', 3], ['int', -2], ['float', hx(3.0)]] +
+          # scales whose reciprocal is not exact: dividing by them and multiplying by 1/scale differ in the last place
+          [['int', 5], ['int', 7], ['int', 49], ['int', -3], ['int', 10], ['float', hx(0.1)], ['float', hx(1.1)], ['float', hx(7.3)], ['float', hx(-0.75)]])
 
 
 # ---- workload ----------------------------------------------------------------------------------------------------
